@@ -557,6 +557,7 @@ func init() {
 		Stub:        []string{"net.Listener (SimListener)", "net.Conn (SimConn)", "Backend/Session/LMTPSession (SimBackend)", "clock (synctest)", "SMTP client (raw driver)"},
 		Assumptions: []string{"a BDAT without a usable size declares nothing to skip: no payload is sent after it and only its single reply and the next marker are judged", "refusal replies are judged to be 5xx, not for their exact code"},
 		Required:    []string{"pipelined_envelope_slow_callbacks_chunk_paced_within_ReadTimeout", "bdat_line_and_over_limit_run_in_one_segment", "bdat_refused_without_envelope", "zero_size_chunk", "payload_contains_bait_command", "payload_contains_end_marker", "over_limit_chunk_aborts_transfer", "malformed_bdat", "client_stalls_past_read_deadline_inside_accepted_chunk", "client_stalls_past_read_deadline_inside_refused_chunk", "backend_refuses_with_a_part_of_the_chunk_unread"},
+		Instr:       true,
 		QuickRuns:   120000, ThoroughRuns: 3000000,
 	})
 }
